@@ -231,10 +231,10 @@ def run(tier, seed, replay):
     results = {}
     if big:
         for name, (consts, workers) in runs.items():
-            results[name] = run_tlc(name, consts, workers, 3000)[1]
+            results[name] = run_tlc(name, consts, workers, 5400)[1]
     else:
         with ThreadPoolExecutor(max_workers=len(runs)) as ex:
-            for name, r in ex.map(lambda kv: run_tlc(kv[0], kv[1][0], kv[1][1], 1800), runs.items()):
+            for name, r in ex.map(lambda kv: run_tlc(kv[0], kv[1][0], kv[1][1], 3600), runs.items()):
                 results[name] = r
     inputs, seen, tlc_cov = [], set(), {}
     evaluations = distinct = nontrivial = 0
@@ -267,7 +267,7 @@ def run(tier, seed, replay):
             inputs.append({"params": {"cat": cat, "cases": ch}, "seed": seed + i, "tier": tier})
     if not hist.get("order-dependent"):
         raise vlib.Broken("no case of the order-dependent class was generated (vacuous OrderAmb)")
-    outs = common.run_parallel(binary, "TestCases", inputs, 1800)
+    outs = common.run_parallel(binary, "TestCases", inputs, 3600)
     calls = cases_run = classes = 0
     observed = collections.Counter()
     viol_count = collections.Counter()
